@@ -11,6 +11,22 @@ FLOORS = {"C20.L1.argparse-spec": 6, "C20.L2.option-plumbing": 8, "C20.L3.same-e
           "C20.L4.finalize-reached": 8, "C20.L5.failures-exit-nonzero": 2}
 
 
+def _info_text(e) -> str:
+    """the line a logger.info(fmt, *args) call emits when the format and the arguments are constants ('?' otherwise)"""
+    a = e.args
+    if not a or not isinstance(a[0], Str) or not a[0].is_concrete():
+        return "?"
+    fmt, rest = a[0].text(), a[1:]
+    if not rest:
+        return fmt.strip()
+    if all(isinstance(x, Str) and x.is_concrete() for x in rest):
+        try:
+            return (fmt % tuple(x.text() for x in rest)).strip()
+        except (TypeError, ValueError):
+            return "?"
+    return fmt.strip()
+
+
 def run(ctx) -> None:
     ctx.explanation = (
         "parse_args_from_console is interpreted to read the argparse specification from its add_argument calls "
@@ -150,8 +166,7 @@ def run(ctx) -> None:
             I.set_attr(o, "matched", BoolV(val), None, None)
             return I.call_func(mo.find_method("finalize"), [], {}, o, None, None)
         for p in I.explore(thunk):
-            texts = [e.args[0].text().strip() for e in p.events if e.kind == "call_unknown" and e.target.endswith(".info")
-                     and e.args and isinstance(e.args[0], Str) and e.args[0].is_concrete()]
+            texts = [_info_text(e) for e in p.events if e.kind == "call_unknown" and e.target.endswith(".info") and e.args]
             ctx.check(texts == [want], "C20.L4.log-lines", "MatchedObserver.finalize", f"matched={val}: {texts}",
                       f"finalize logs exactly '{want}' when matched is {val}")
     Im = match_interp(ctx.p)
@@ -169,8 +184,8 @@ def run(ctx) -> None:
     for s in match_scenarios(Im, return_modes=("bool",), configs=({},)):
         if s.path.kind != "return":
             continue
-        texts = [e.args[0].text().strip() for e in s.path.events if e.kind == "call_unknown" and e.target.endswith(".info")
-                 and e.args and isinstance(e.args[0], Str) and e.args[0].is_concrete() and e.args[0].text().strip().startswith("RESULT")]
+        texts = [t for t in (_info_text(e) for e in s.path.events if e.kind == "call_unknown" and e.target.endswith(".info") and e.args)
+                 if t.startswith("RESULT")]
         v = s.path.value
         ok = len(texts) == 1 and isinstance(v, BoolV) and (texts[0] == "RESULT: Pattern found") == v.v and \
             texts[0] in ("RESULT: Pattern found", "RESULT: Pattern not found")
